@@ -478,20 +478,26 @@ Example ex_quiet_knight :
   legal_specb start_spos (mvq 6 0 5 2) = true /\ alpha (make_spec start_spos (mvq 6 0 5 2)) = alpha start_spos.
 Proof.
   split; [vm_compute; reflexivity|].
-  apply (quiet_piece_move_stutters start_spos (mvq 6 0 5 2) Knight); try reflexivity.
+  apply (quiet_piece_move_stutters start_spos (mvq 6 0 5 2) Knight).
+  - vm_compute; reflexivity.
   - apply legal_specb_spec. vm_compute. reflexivity.
+  - vm_compute; reflexivity.
   - discriminate.
+  - vm_compute; reflexivity.
   - intros [H _]. discriminate.
 Qed.
 
 (** after 1.e4 d5 2.exd5 the move 2...Qxd5 is "piece takes pawn": the premises of the capture case hold *)
 Definition ex_qxd5_pos : spos :=
+  Eval vm_compute in
   match play start_spos [mvq 4 1 4 3; mvq 3 6 3 4; mvq 4 3 3 4] with Some sp => sp | None => start_spos end.
 
 Example ex_piece_takes_pawn : kstep false (alpha ex_qxd5_pos) (alpha (make_spec ex_qxd5_pos (mvq 3 7 3 4))).
 Proof.
-  apply (kernel_abstraction_partial ex_qxd5_pos (mvq 3 7 3 4) Queen); try reflexivity.
+  apply (kernel_abstraction_partial ex_qxd5_pos (mvq 3 7 3 4) Queen).
+  - vm_compute; reflexivity.
   - apply legal_specb_spec. vm_compute. reflexivity.
+  - vm_compute; reflexivity.
   - discriminate.
   - intros [H _]. vm_compute in H. discriminate.
   - right. exists Pawn. split; [vm_compute; reflexivity|discriminate].
